@@ -25,9 +25,9 @@ ASSUMPTIONS = [
     "only files written for the SAME tree are loaded (the quantifier excludes stale default-marked files)",
     "'no diagnostics' is read as: the three report areas named in the statement and Kconfig.missing_syms",
 ]
-BUDGET = {"quick": {"examples": 3200}, "thorough": {"examples": 200000, "deadline_s": 900}}
+BUDGET = {"quick": {"examples": 6400}, "thorough": {"examples": 200000, "deadline_s": 900}}
 
-CFG = gen.cfg(max_syms=14, string_tier="U", p_choice=14, p_multi_def=12, p_choice_twice=20, p_bare=6, p_empty_string=15, p_member_props=12)
+CFG = gen.cfg(max_syms=14, string_tier="U", p_choice=14, p_multi_def=12, p_choice_twice=20, p_bare=6, p_empty_string=15, p_member_props=12, value_kinds=[(60, "valid"), (32, "alt"), (8, "bad")])
 KINDS = [(45, "set"), (8, "unset"), (8, "reset"), (3, "reset_menu"), (10, "load_hand"), (6, "write"), (8, "load_slot")]
 
 
